@@ -154,7 +154,7 @@ func sameCH(a, b *data.ContentHash) bool {
 func (r *run) genField(mostlyValid bool, allowZero bool) uint32 {
 	g := r.rng
 	switch {
-	case mostlyValid && g.Chance(7, 10):
+	case mostlyValid && g.Chance(19, 20):
 		if allowZero && g.Chance(1, 4) {
 			return 0
 		}
@@ -170,7 +170,7 @@ func (r *run) genHashBytes(mostlyValid bool) []byte {
 	g := r.rng
 	var n int
 	switch {
-	case mostlyValid && g.Chance(6, 10):
+	case mostlyValid && g.Chance(9, 10):
 		n = g.Range(20, 64)
 	case g.Chance(3, 4):
 		n = lenBoundary[g.Intn(len(lenBoundary))]
@@ -200,7 +200,7 @@ const extChars = "0123456789abcdefghijklmnopqrstuvwxyz"
 
 func (r *run) genExt(mostlyValid bool) string {
 	g := r.rng
-	if mostlyValid && g.Chance(7, 10) {
+	if mostlyValid && g.Chance(9, 10) {
 		if g.Chance(1, 3) {
 			return []string{"rdf", "txt", "json", "pdf", "jsonld", "7z", "mp4"}[g.Intn(7)]
 		}
@@ -708,7 +708,7 @@ func main() {
 	if *tier == "thorough" {
 		scale = 20
 	}
-	nHash, nParse, nCreate := 620*scale, 1500*scale, 45*scale
+	nHash, nParse, nCreate := 700*scale, 1500*scale, 45*scale
 
 	r := &run{
 		rng:      common.NewRng(*seed),
